@@ -25,6 +25,27 @@ impl KeyOnce { #[verifier::external_body] pub fn as_ref(&self) -> (r: Option<&u6
 pub struct BuilderT { pub b: u8 }
 pub struct CtxT { pub c: u8 }
 pub struct InflightsT { pub takes: Ghost<Seq<(u64, Option<usize>)>> }
+pub struct NotifierT { }
+impl NotifierT {
+    /// a waiter of a cancelled fetch is answered with an error (never with a value, never left unanswered by this loop)
+    #[verifier::external_body]
+    pub fn send(self, r: Result<Option<u64>>) -> core::result::Result<(), ()>
+        requires r is Err, // @label waiters_of_a_dropped_fetch_task_get_the_cancellation_error
+    { unimplemented!() }
+}
+#[derive(Clone, Copy)]
+pub enum ErrorKind { TaskCancelled, External, Other }
+impl Error {
+    #[verifier::external_body] pub fn new(kind: ErrorKind, msg: &str) -> Error { unimplemented!() }
+    #[verifier::external_body] pub fn with_context(self, k: &str, v: u64) -> Error { unimplemented!() }
+}
+impl InflightsT {
+    /// `inflights.lock().take(hash, key, id)`: logged; the answer (the waiters, if the registration is still this task's) is arbitrary
+    #[verifier::external_body]
+    pub fn take(&mut self, hash: u64, key: &u64, id: Option<usize>) -> (r: Option<Vec<NotifierT>>)
+        ensures final(self).takes@ == old(self).takes@.push((hash, id)),
+    { unimplemented!() }
+}
 /// the cache as an effect log: what the fetch task inserts
 pub struct CacheLogT { pub inserts: Ghost<Seq<(u64, Source)>> }
 pub enum RawFetchState { Init, FetchOptional, FetchRequired, Notify, Ready }
@@ -118,5 +139,22 @@ impl RawFetch {
         Poll::Pending
 //@end
 }
+
+
+// ---- PinnedDrop for RawFetch (C06): a fetch task dropped before it finished -- in ANY unfinished state, also before its
+// first poll -- takes its in-flight registration by its own leader id and answers every waiter with the cancellation
+// error; a finished task (Notify / Ready) takes nothing
+//@region foyer-memory/src/raw.rs :: impl~PinnedDrop for RawFetch/fn drop name=fetch_task_drop start=/match this\.state \{/ stmts=99 sub=@\*this\.hash@this.hash@ sub=@\*this\.id@this.id@ sub=@(?s)this\s*\.inflights\s*\.lock\(\)\s*\.take\(@this.inflights.take(@
+//@head
+fn fetch_task_drop(this: &mut ThisT)
+    requires old(this).key.k.is_some(),
+    ensures
+        (old(this).state is Notify || old(this).state is Ready) ==> final(this).inflights.takes@ == old(this).inflights.takes@, // @label finished_task_takes_nothing_on_drop
+        !(old(this).state is Notify || old(this).state is Ready) ==>
+            final(this).inflights.takes@ == old(this).inflights.takes@.push((old(this).hash, Some(old(this).id))), // @label unfinished_fetch_task_takes_its_waiters_by_leader_id_on_drop
+        final(this).cache.inserts@ == old(this).cache.inserts@, // @label dropped_task_caches_nothing
+//@loop 1 iter=it
+                invariant this.inflights.takes@ == old(this).inflights.takes@.push((old(this).hash, Some(old(this).id))), this.cache.inserts@ == old(this).cache.inserts@,
+//@end
 
 } // verus!
